@@ -85,6 +85,39 @@ theorem C15_sequential (es : List Event) (c : Counter) :
     ((Counters.recordAll {} es).get c) = due es c := by
   rw [get_recordAll]; cases c <;> simp [Counters.get]
 
+/-- the three early returns of the RESP command handler (value not an array, empty array, first
+    element not a non-null bulk string) record nothing: they answer with a fixed protocol error,
+    send nothing to the limiter and return no decision - so recording no event keeps every
+    identity of `C15_identities` and `C15_denied_exact`; every other command is recorded
+    (classified by `C15_resp_classification`). -/
+theorem C15_resp_uncounted (v : Resp.Value) (upper : Option (List UInt8)) (h : Resp.counted v upper = false) :
+    Resp.plan v upper = .reply (.error b!"ERR expected array of commands") ∨
+    Resp.plan v upper = .reply (.error b!"ERR empty command") ∨
+    Resp.plan v upper = .reply (.error b!"ERR invalid command format") := by
+  unfold Resp.counted at h
+  cases v with
+  | array xs =>
+    cases xs with
+    | nil => right; left; rfl
+    | cons first rest =>
+      right; right
+      cases first with
+      | bulk s =>
+        cases s with
+        | none => rfl
+        | some name =>
+          cases upper with
+          | none => rfl
+          | some up => simp at h
+      | simple _ => rfl
+      | error _ => rfl
+      | int _ => rfl
+      | array _ => rfl
+  | simple _ => left; rfl
+  | error _ => left; rfl
+  | int _ => left; rfl
+  | bulk _ => left; rfl
+
 /-- RESP command layer: the recorded call is `request redis false` exactly when the command was a
     THROTTLE that was sent to the limiter and answered `ok false ..`; every other command (PING
     with any arguments, QUIT, unknown, malformed THROTTLE, limiter error, no answer) records
